@@ -84,6 +84,40 @@ def extract (frame, in_port):
   return f, app
 
 
+def layout (frame):
+  """Where the headers of an Ethernet II frame sit (own parse, no POX): dict(tagged, tci, etype, l3, and for a
+  well-formed IPv4 header tos, ident, fragword, ttl, proto, ihl, l4).  None for 802.3/LLC frames."""
+  et = _u16(frame, 12); off = 14
+  d = dict(tagged=False, tci=None)
+  if et == 0x8100:
+    d["tagged"] = True; d["tci"] = _u16(frame, off); et = _u16(frame, off + 2); off += 4
+  if et < 0x0600: return None
+  d["etype"] = et; d["l3"] = off
+  if et == 0x0800 and len(frame) >= off + 20 and (frame[off] >> 4) == 4 and (frame[off] & 15) >= 5:
+    d.update(tos=frame[off+1], ident=_u16(frame, off + 4), fragword=_u16(frame, off + 6), ttl=frame[off+8],
+             proto=frame[off+9], ihl=(frame[off] & 15) * 4, l4=off + (frame[off] & 15) * 4)
+  return d
+
+
+def retag (frame, ops):
+  """The frame after the VLAN actions of OpenFlow 1.0 section 3.3 (Table 5), on bytes.
+  ops: sequence of ("vid", v) | ("pcp", p) | ("strip",).  set_vlan_vid / set_vlan_pcp rewrite the field of an
+  existing tag; without a tag "a new header is added" with the other field zero; strip removes the tag if present."""
+  frame = bytes(frame)
+  for op in ops:
+    tagged = _u16(frame, 12) == 0x8100
+    if op[0] == "strip":
+      if tagged: frame = frame[:12] + frame[16:]
+      continue
+    if not tagged:
+      frame = frame[:12] + struct.pack("!HH", 0x8100, 0) + frame[12:]
+    tci = _u16(frame, 14)
+    if op[0] == "vid": tci = (tci & 0xf000) | (op[1] & 0x0fff)
+    else: tci = (tci & 0x1fff) | ((op[1] & 7) << 13)
+    frame = frame[:14] + struct.pack("!H", tci) + frame[16:]
+  return frame
+
+
 def wire_exact (pm):
   """pm: parsed wire match (dict with 'wildcards').  Exact-match entry = no wildcard bit at all."""
   return (pm["wildcards"] & OFPFW_ALL) == 0
